@@ -170,6 +170,7 @@ func (e *Engine) execRange(st *State, fr *Frame, x *ssa.Range) {
 	name := "iter!" + x.Name()
 	ks := e.keySort(mt.Key())
 	st.ghost[name] = Term{"((as const (Array " + ks + " Bool)) false)", "(Array " + ks + " Bool)"}
+	st.ghost["iter!current"] = Term{name, SInt}
 	fr.vals[x] = VIter{M: m, MT: mt, Name: name}
 }
 
@@ -191,6 +192,10 @@ func (e *Engine) execNext(st *State, fr *Frame, x *ssa.Next) {
 	st.Assume(Implies(okT, And(Select(d, k), Not(Select(seen, k)))))
 	// exhaustion: when the iteration ends every key still present has been seen
 	st.Assume(Implies(Not(okT), Term{fmt.Sprintf("(forall ((qk %s)) (=> (select %s qk) (select %s qk)))", ks, d.S, seen.S), SBool}))
+	// a non-empty map has a key, and at exhaustion every key has been produced
+	_, cardH, _ := e.mapHeaps(mt)
+	cardT := Select(e.heapGet(st, cardH.name, cardH.sort), it.M)
+	st.Assume(Implies(Not(okT), Or(Eq(cardT, TZero), Term{fmt.Sprintf("(exists ((qk %s)) (and (select %s qk) (select %s qk)))", ks, d.S, seen.S), SBool})))
 	st.ghost[it.Name] = Ite(okT, Store(seen, k, TTrue), seen)
 	st.ghost[it.Name+"!cur"] = k
 	var ts []Term
